@@ -451,6 +451,8 @@ def run(ctx):
     for _ in range(ctx.n(300, 3000)):
         long_v = ', '.join(rng.choice(pk) for _ in range(rng.randint(6, 14)))
         rts.append([[rng.choice(['Depends', 'Build-Depends', 'Recommends', 'Description', 'X-Long']), long_v], ['Package', 'x']])
+    # a paragraph of thousands of fields
+    rts.append([['X-Field-%d' % i, 'value %d' % i] for i in range(4000)] + [['Package', 'x'], ['Depends', 'a (>= 1), b | c']])
     fails += ctx.prop('prop:dumps-roundtrip', rts, p_roundtrip)
     mnt = [(rng.choice(['Jane Doe', 'X', 'Debian QA Group', 'a b c', "O'Neil", 'j+k', 'Joe Z. Doe', 'Jos\xe9 M\xfcller', 'A. B. C.', 'Dr. X']), rng.choice(['a@b.c', 'jane.doe@example.org', 'x_y@z-q.net', 'a+b@c.d']))
            for _ in range(ctx.n(300, 3000))]
